@@ -824,11 +824,13 @@ def probe_excluded(ctx):
 
 
 def run(ctx):
-    ctx.rule = ("service configs (1..4 entries; names: exact, service-wide, other service/package, unknown method, missing key; timeout "
-                "with/without retryPolicy; fractional and `n` durations; absent/zero back-off fields; 1..16 status codes) x every method of "
-                "1..3 services (unary, server-streaming, paged) x fault sequences (retryable^k then OK / non-retryable / run into the "
-                "deadline; explicit retry/timeout overrides) x {sync, asyncio} x {jitter pinned to 1, random jitter}; distinct by "
-                "(config, method) for defaults, by (config, method, transport) for table entries, by (config, method, replies, kwargs, "
+    ctx.rule = ("service configs (1..4 entries; names: exact, service-wide, catch-all {}, other service/package, unknown method, missing key, "
+                "mixin RPC; timeout with/without retryPolicy; fractional, `n`, zero, tiny and huge durations; absent/zero back-off fields; multiplier "
+                "edge values; 1..16 status codes; optionally an earlier retry-config file) x every RPC of 1..3 services in one or several proto "
+                "files (unary, server-streaming, paged, LRO; client-streaming/bidi and mixin RPCs: table entries, mixins also called) x "
+                "{grpc, grpc_asyncio, rest, rest_asyncio} tables x fault sequences (retryable^k then OK / non-retryable / run into the deadline; "
+                "explicit retry / timeout / None overrides) x {sync, asyncio} x {jitter pinned to 1, random, (thorough) pinned to 1/2}; "
+                "distinct by (config, method) for defaults, (config, method, transport) for table entries, (config, method, replies, kwargs, "
                 "client kind, jitter mode) for calls; non-trivial = every one of them")
     ctx.assume("every methodConfig entry has a `name` list")
     ctx.assume("durations are plain decimal seconds (or integer nanoseconds with the `n` suffix); timeout > 0")
@@ -878,7 +880,10 @@ CLAIM = dict(
           "override the defaults. Tie: T2 against the real `_to_float`, `Method.retry/timeout` and api-core's status->class table "
           "(exhaustive); T3 against the emitted sync/asyncio/REST tables (introspection) and the emitted sync and asyncio clients "
           "talking to a loopback gRPC server with scripted status codes, trapped sleeps, a virtual clock and pinned or random jitter; "
-          "a model-independent oracle restating the property."),
+          "a model-independent oracle restating the property. Since the deepening round also: the whole table (`wrappedTable`: own RPCs then "
+          "mixin RPCs, which never get defaults), the last-retry-config-wins rule, service-level/catch-all names selecting nothing, "
+          "`attempts <= retryable prefix + 1` for every run, one wait between attempts, set semantics of the predicate; tables of all four "
+          "transports incl. rest_asyncio; LRO, mixin and multi-file APIs."),
     technique="Lean 4 theorems (induction on fault sequences over exact rationals) + differential T2/T3 with fault injection against the emitted clients",
     design="7.9",
     note=("api-core's retry loop, TimeToDeadlineTimeout and the status->exception table are a hand-written reference model (validated "
